@@ -15,8 +15,16 @@ def _regen_profilearith(ctx):
     return F.harness_regen(ctx, 'profilearith', 'ProfileArith.lean')
 
 
+def _regen_validatorfac(ctx):
+    """Generated/ValidatorFactory.lean (every field of factory.StandardFactory()): the op `sodev` resolves the native field of a
+    developer field through it"""
+    import framework as F
+    return F.harness_regen(ctx, 'validatorfac', 'ValidatorFactory.lean')
+
+
 REGEN = dict(_C06_REGEN)
 REGEN['profilearith'] = _regen_profilearith
+REGEN['validatorfac'] = _regen_validatorfac
 
 
 def _extra(ctx, spec):
@@ -34,7 +42,7 @@ def _extra(ctx, spec):
 
 PROP = dict(
     level='proof',
-    regen=['consts', 'profilearith'],
+    regen=['consts', 'profilearith', 'validatorfac'],
     extra=_extra,
     theorems=['Fit.C12.C12_f64_round_err', 'Fit.C12.C12_scale_roundtrip_rounded', 'Fit.C12.C12_profile_pairs_in_range',
               'Fit.C12.C12_helpers', 'Fit.C12.C12_helpers_int64', 'Fit.C12.C12_value_route', 'Fit.C12.C12_validator', 'Fit.C12.C12_csv',
